@@ -817,7 +817,84 @@ func (fv *FuncVerifier) inlineClosure(st *State, env *Env, cl *Closure, args []T
 	return res
 }
 
+// inlinable: an uncontracted /repo function small and simple enough to be executed inline at its call sites.
+func (fv *FuncVerifier) inlinable(fi *FuncInfo) bool {
+	if fi == nil || fi.Decl == nil || fi.Decl.Body == nil || fi.VarInit || fi.Obj == nil || fi == fv.fn || fv.inlineDepth >= maxInlineDepth-1 {
+		return false
+	}
+	for _, k := range fv.inlineStack {
+		if k == fi.Key {
+			return false
+		}
+	}
+	sig, _ := fi.Obj.Type().(*types.Signature)
+	if sig == nil || sig.TypeParams().Len() > 0 || sig.RecvTypeParams().Len() > 0 {
+		return false
+	}
+	n := 0
+	ok := true
+	ast.Inspect(fi.Decl.Body, func(x ast.Node) bool {
+		switch x.(type) {
+		case ast.Stmt:
+			n++
+		case *ast.FuncLit:
+			// helper-local closures are fine, but keep things small
+			n += 3
+		}
+		switch x.(type) {
+		case *ast.GoStmt, *ast.SelectStmt, *ast.DeferStmt:
+			ok = false
+		}
+		return true
+	})
+	return ok && n <= 60
+}
+
+// inlineRepoFunc executes the body of an uncontracted /repo function at the call site (parameters bound to the
+// arguments, receiver included). Loops inside it have no invariants (their written variables are simply havocked).
+func (fv *FuncVerifier) inlineRepoFunc(st *State, env *Env, call *ast.CallExpr, fi *FuncInfo, sig *types.Signature, recv Term, hasRecv bool, args []Term) []Term {
+	fv.calleesUsed[fi.Key+" (no contract: body executed inline)"] = true
+	fv.curState = st
+	args = fv.packVariadic(call, sig, args)
+	fv.curState = nil
+	info := fi.Pkg.TypesInfo
+	if fi.Decl.Recv != nil && hasRecv {
+		for _, f := range fi.Decl.Recv.List {
+			for _, n := range f.Names {
+				if o := info.Defs[n]; o != nil {
+					st.vars[o] = fv.coerce(recv, fv.sortOf(o.Type()))
+				}
+			}
+		}
+	}
+	fv.inlineStack = append(fv.inlineStack, fi.Key)
+	defer func() { fv.inlineStack = fv.inlineStack[:len(fv.inlineStack)-1] }()
+	lit := &ast.FuncLit{Type: fi.Decl.Type, Body: fi.Decl.Body}
+	res := fv.inlineClosure(st, env, &Closure{Lit: lit, Info: info, Sig: sig}, args, call.Lparen)
+	// Go maps are references: what the helper stored into a map parameter is visible to the caller
+	i := 0
+	for _, f := range fi.Decl.Type.Params.List {
+		for _, n := range f.Names {
+			if o := info.Defs[n]; o != nil && i < len(call.Args) {
+				if _, isMap := o.Type().Underlying().(*types.Map); isMap && isLvalue(call.Args[i]) {
+					if v, ok := st.vars[o]; ok {
+						fv.assignTo(st, env, call.Args[i], v, nil)
+					}
+				}
+			}
+			i++
+		}
+		if len(f.Names) == 0 {
+			i++
+		}
+	}
+	return res
+}
+
 func (fv *FuncVerifier) sigOfLit(cl *Closure) *types.Signature {
+	if cl.Sig != nil {
+		return cl.Sig
+	}
 	if t, ok := cl.Info.Types[cl.Lit]; ok {
 		if s, ok := t.Type.Underlying().(*types.Signature); ok {
 			return s
@@ -1037,7 +1114,11 @@ func (fv *FuncVerifier) callRepoFunc(st *State, env *Env, call *ast.CallExpr, fi
 	c := fi.Contr
 	fv.calleesUsed[fi.Key] = true
 	if c == nil || !(c.Has("requires", 0) || c.Has("ensures", 0) || c.Has("pure", 0) || c.Has("assigns", 0) || c.Has("yields", 0) || c.Has("effects", 0) || c.Has("functional", 0) || returnedLit(fv, fi) > 0 && c.Has("yields", returnedLit(fv, fi))) {
-		// no contract: arbitrary effects and results
+		// no contract. A small, non-recursive helper is executed INLINE (its body is the real code: extracting a helper
+		// from a function under contract then changes nothing for the proof); anything else has arbitrary effects.
+		if c == nil && !env.spec && fv.inlinable(fi) {
+			return fv.inlineRepoFunc(st, env, call, fi, sig, recv, hasRecv, args)
+		}
 		if !env.spec {
 			fv.nondet = append(fv.nondet, "call of uncontracted "+fi.Key)
 			fv.note("call of uncontracted %s at %s: heap and map arguments havocked", fi.Key, fv.pos(call.Pos()))
